@@ -122,12 +122,14 @@ func verif_harness_C20_observe() {
 	if res.Error == "" {
 		verif_assert(n == 0, "C20.no-failure-without-error")
 	} else {
-		verif_assert(n == 1, "C20.failure-counter-incremented-by-one")
-		if n == 1 {
-			verif_assert(base(fail, 1) && fail.labels[3] == res.Error, "C20.failure-labels")
-			one := (fail.incs == 1 && len(fail.adds) == 0) || (fail.incs == 0 && len(fail.adds) == 1 && fail.adds[0] == 1)
-			verif_assert(one, "C20.failure-counter-incremented-by-one")
+		// one message for the whole condition, the same the native twin uses:
+		// the counter of exactly (method, url, status, error) grew by one
+		ok := n == 1
+		if ok {
+			ok = base(fail, 1) && fail.labels[3] == res.Error &&
+				((fail.incs == 1 && len(fail.adds) == 0) || (fail.incs == 0 && len(fail.adds) == 1 && fail.adds[0] == 1))
 		}
+		verif_assert(ok, "C20.failure-counter-incremented-by-one")
 	}
 	verif_assert(len(calls) <= 4, "C20.nothing-else-touched")
 }
